@@ -783,8 +783,13 @@ class Interp:
         return None
 
     def eval_default(self, fi: FuncInfo, d: ast.AST):
-        fr = Frame(self, fi, {}, None)
-        return fr.ev(d)
+        """default values are evaluated ONCE per function (Python semantics): one object per analysed path"""
+        cache = self.st.__dict__.setdefault("defaults", {})
+        key = (fi.qualname, id(d))
+        if key not in cache:
+            fr = Frame(self, fi, {}, None)
+            cache[key] = fr.ev(d)
+        return cache[key]
 
     def construct(self, ci: ClassInfo, args, kwargs):
         repo = self.repo
